@@ -179,8 +179,7 @@ theorem nextLayer_count (k : ℕ) (hk4 : k ≤ 4) (b : Felt) (yv xi : ℕ → Fe
     sibs.length = (expectedSiblings (2 ^ k) yv cidx qi).length + r.siblingsLeft.length :=
   Proofs.nextLayer_count k hk4 b yv xi qi cidx hq hqb hc hmem sibs r h
 
-/-- … so with fewer sibling values than needed the result is not `ok` (the Rust panics: `drain` on an
-    empty `Vec`). -/
+/-- … so with fewer sibling values than needed the result is not `ok` … -/
 theorem nextLayer_consumes (k : ℕ) (hk4 : k ≤ 4) (b : Felt) (yv xi : ℕ → Felt)
     (qi cidx : List ℕ) (hq : qi.Pairwise (· < ·)) (hqb : ∀ q ∈ qi, q < 2 ^ 64)
     (hc : cidx.Pairwise (· < ·)) (hmem : ∀ c, c ∈ cidx ↔ ∃ q ∈ qi, q / 2 ^ k = c)
@@ -188,6 +187,28 @@ theorem nextLayer_consumes (k : ℕ) (hk4 : k ≤ 4) (b : Felt) (yv xi : ℕ →
     ∀ r, Fri.computeNextLayer (qi.map fun idx : ℕ => (⟨(idx : Felt), yv idx, xi idx⟩ : LayerQuery)) sibs
       ((2 ^ k : ℕ) : Felt) b ≠ .ok r :=
   Proofs.nextLayer_consumes k hk4 b yv xi qi cidx hq hqb hc hmem sibs hshort
+
+/-- … in fact it is exactly the error `SiblingWitnessTooShort` (what the fixed Rust returns instead of
+    panicking in `drain`) … -/
+theorem nextLayer_consumes_err (k : ℕ) (hk1 : 1 ≤ k) (hk4 : k ≤ 4) (b : Felt) (yv xi : ℕ → Felt)
+    (qi cidx : List ℕ) (hq : qi.Pairwise (· < ·)) (hqb : ∀ q ∈ qi, q < 2 ^ 64)
+    (hc : cidx.Pairwise (· < ·)) (hmem : ∀ c, c ∈ cidx ↔ ∃ q ∈ qi, q / 2 ^ k = c)
+    (sibs : List Felt) (hshort : sibs.length < (expectedSiblings (2 ^ k) yv cidx qi).length) :
+    Fri.computeNextLayer (qi.map fun idx : ℕ => (⟨(idx : Felt), yv idx, xi idx⟩ : LayerQuery)) sibs
+      ((2 ^ k : ℕ) : Felt) b = .err "SiblingWitnessTooShort" :=
+  Proofs.nextLayer_consumes_err k hk1 hk4 b yv xi qi cidx hq hqb hc hmem sibs hshort
+
+/-- … and on well-formed query indices (values arbitrary) `compute_next_layer` never panics: the outcome
+    is `ok` or that error. -/
+theorem nextLayer_wf (k : ℕ) (hk1 : 1 ≤ k) (hk4 : k ≤ 4) (b : Felt) (yv xi : ℕ → Felt)
+    (qi cidx : List ℕ) (hq : qi.Pairwise (· < ·)) (hqb : ∀ q ∈ qi, q < 2 ^ 64)
+    (hc : cidx.Pairwise (· < ·)) (hmem : ∀ c, c ∈ cidx ↔ ∃ q ∈ qi, q / 2 ^ k = c)
+    (sibs : List Felt) :
+    (∃ r, Fri.computeNextLayer (qi.map fun idx : ℕ => (⟨(idx : Felt), yv idx, xi idx⟩ : LayerQuery)) sibs
+      ((2 ^ k : ℕ) : Felt) b = .ok r) ∨
+    Fri.computeNextLayer (qi.map fun idx : ℕ => (⟨(idx : Felt), yv idx, xi idx⟩ : LayerQuery)) sibs
+      ((2 ^ k : ℕ) : Felt) b = .err "SiblingWitnessTooShort" :=
+  Proofs.nextLayer_wf k hk1 hk4 b yv xi qi cidx hq hqb hc hmem sibs
 
 /-! ### non-vacuity -/
 
@@ -243,11 +264,11 @@ example (cs : List Felt) (b : Felt) :
     simpa [pt] using this
   · intro c; simp; omega
 
-/-- … and with no sibling values it is not `ok`. -/
-example (yv xi : ℕ → Felt) (b : Felt) : ∀ r,
+/-- … and with no sibling values it is `err "SiblingWitnessTooShort"`. -/
+example (yv xi : ℕ → Felt) (b : Felt) :
     Fri.computeNextLayer ([2, 5].map fun idx : ℕ => (⟨(idx : Felt), yv idx, xi idx⟩ : LayerQuery)) []
-      ((2 ^ 1 : ℕ) : Felt) b ≠ .ok r :=
-  nextLayer_consumes 1 (by norm_num) b yv xi [2, 5] [1, 2] (by simp) (by simp) (by simp)
+      ((2 ^ 1 : ℕ) : Felt) b = .err "SiblingWitnessTooShort" :=
+  nextLayer_consumes_err 1 (le_refl _) (by norm_num) b yv xi [2, 5] [1, 2] (by simp) (by simp) (by simp)
     (by intro c; simp; omega) [] (by simp [expectedSiblings, List.range, List.range.loop])
 
 /-- last layer: `[1, 2]` vs `[1, 5]` differ at position 1 by `3`. -/
